@@ -110,6 +110,7 @@ let run_d cap ops =
       | "xd" ->
           (match apply (OExDrop (num p.(1), nat_of (int_of_string p.(2)), p.(3).[0] = '1', p.(3).[1] = '1', num p.(4))) with
            | ROk -> "ok" | _ -> "none")
+      | "xk" -> (match apply (OExAcked (num p.(1), nat_of (int_of_string p.(2)), num p.(3))) with ROk -> "ok" | _ -> "none")
       | "s" ->
           (match apply (OSweep (num p.(1))) with
            | RId id -> "id" ^ string_of_n id
@@ -119,8 +120,30 @@ let run_d cap ops =
     Buffer.add_string buf (Printf.sprintf "%s>%s#%s=%s " res (table_str !st.tb)
       (string_of_n (n_reserved !st.tb)) (string_of_n (n_present_handles !st))))
     (split_on ',' ops);
-  let body = String.trim (Buffer.contents buf) in
-  Printf.sprintf "%s | ev=%s" body (if Buffer.length ev = 0 then "-" else Buffer.contents ev)
+  (* quiescence: the sweeper runs until it finds nothing to do *)
+  (try
+    for _ = 1 to cap * 8 + 8 do
+      let (s', r) = step capn mx !st (OSweep far) in
+      st := s';
+      if r = RNone then raise Exit
+    done
+  with Exit -> ());
+  let fin = Buffer.create 64 in
+  List.iter (fun s ->
+    let mc = (match s.s_mode with
+      | MCase -> (try Hashtbl.find letter (int_of_n s.s_id) with Not_found -> 'C')
+      | m -> mode_char m) in
+    Buffer.add_string fin (Printf.sprintf "%s%c[" (string_of_n s.s_id) mc);
+    List.iteri (fun i e ->
+      match e with
+      | None -> ()
+      | Some x ->
+          let c = match x with XOwned -> 'o' | XPending -> 'p' | XDropAck -> 'A' | XDropRetr -> 'R' in
+          Buffer.add_string fin (Printf.sprintf "%d%c" i c)) s.s_exch;
+    Buffer.add_string fin "];") !st.tb.t_sess;
+  let body = String.trim (Buffer.contents buf) ^ " swept>" ^ Buffer.contents fin in
+  Printf.sprintf "%s | ev=%s dl=%s" (String.trim body) (if Buffer.length ev = 0 then "-" else Buffer.contents ev)
+    (string_of_n (n_dropped !st.tb))
 
 (* ---- V / W ---- *)
 let slot_no = function RvIdle -> 0 | RvRequested _ -> 1 | RvInFlight _ -> 2 | RvResolved _ -> 3
@@ -175,6 +198,7 @@ let run_e cap fields =
   let beh = List.filter (fun x -> x <> "") (String.split_on_char '.' (field fields "beh")) in
   let geti k = (try int_of_string (field fields k) with _ -> 0) in
   let junk = geti "j" and cx = geti "cx" and age = geti "age" in
+  let unrel = geti "u" and ut = geti "ut" and noresp = geti "noresp" in
   let (busy, idle_n) = (match String.split_on_char '.' (field fields "fill") with
     | [a; b] -> (int_of_string a, int_of_string b) | _ -> (0, 0)) in
   let nd = ref node_init in
@@ -203,6 +227,9 @@ let run_e cap fields =
   let attempt ?(cancel=false) tries upto full =
     match rx tries with
     | None -> false
+    | Some a when noresp = 1 && not full ->
+        (* no handler takes the exchange: accept time-out *)
+        ignore (apply (NAcceptTimeout (a, tick ()))); false
     | Some a ->
         (match apply (NAccept (a, VGood, tick ())) with
          | ROk ->
@@ -246,6 +273,20 @@ let run_e cap fields =
             ignore (apply (NFail (a, false, tick ())))
           end else
             (match apply (NAccept (a, VBad, tick ())) with _ -> ())
+    end
+  done;
+  (* first messages that ask for no acknowledgement *)
+  for _ = 1 to unrel do
+    if beh <> [] then begin
+      match rx 1 with
+      | None -> ()
+      | Some a ->
+          if ut = 1 then ignore (apply (NAcceptTimeout (a, tick ())))
+          else begin
+            (* a handler takes it; its answer goes to nobody and is never acknowledged *)
+            (match apply (NAccept (a, VGood, tick ())) with _ -> ());
+            ignore (apply (NFail (a, false, tick ())))
+          end
     end
   done;
   nd := sweeps capn mx (nat_of 64) (tick ()) !nd;
@@ -297,6 +338,11 @@ let spec_line f =
                  then bad := "evicted-busy-session" :: !bad
                end) (String.split_on_char ',' v)
        | _ -> ());
+      List.iter (fun t ->
+        if String.length t > 3 && String.sub t 0 3 = "dl=" then begin
+          let d = (try n_of_string (String.sub t 3 (String.length t - 3)) with _ -> n_of_int 1) in
+          if not (mon_swept d) then bad := "dropped-exchange-never-swept" :: !bad
+        end) rest;
       Printf.printf "D %s %s\n" id (if !bad = [] then "ok" else String.concat "," !bad)
   | (("V" | "W") as k) :: id :: rest ->
       let e = List.fold_left (fun acc t ->
@@ -326,8 +372,9 @@ let () =
     while true do
       let line = input_line stdin in
       let f = List.filter (fun x -> x <> "") (String.split_on_char ' ' line) in
-      if spec then spec_line f
-      else
+      let key = (match f with k :: id :: _ -> k ^ " " ^ id | _ -> "? ?") in
+      if spec then (try spec_line f with _ -> Printf.printf "%s unreadable-output\n" key)
+      else try
         match f with
         | "D" :: id :: n :: rest ->
             let cap = int_of_string (String.sub n 2 (String.length n - 2)) in
@@ -338,5 +385,6 @@ let () =
             let cap = int_of_string (String.sub n 2 (String.length n - 2)) in
             Printf.printf "E %s %s\n" id (run_e cap rest)
         | _ -> ()
+      with End_of_file -> raise End_of_file | _ -> Printf.printf "%s driver-error\n" key
     done
   with End_of_file -> ()
